@@ -602,6 +602,9 @@ class _OsFacade(object):
         self.path = _Path(simos)
 
     def __getattr__(self, name):
+        if not hasattr(_real_os, name):
+            # e.g. hasattr(os, "O_BINARY") on a POSIX system: absent there, absent here
+            raise AttributeError(name)
         raise HarnessError("os.%s is not simulated" % name)
 
     def getpid(self):
